@@ -1003,6 +1003,9 @@ def callBuiltin (r : Rec) (b : Bi) (args : Val) : M Val :=
     let vs ← evalEach r args
     match vs with
     | [] => pure .nil
+    | [x] =>
+      -- a single argument is divided into 1
+      if isZeroNum x then M.throw .undefined else arithV .div (.int 1) x
     | first :: rest =>
       if rest.any isZeroNum then M.throw .undefined
       else foldVals (arithV .div) first rest
